@@ -33,6 +33,19 @@ theorem C02_grammar : C02_grammar_full := by
   intro hn
   simp [IsSentence, hrun, hdone hn]
 
+/-- The anchor clause of C02 at full strength, for every token sequence: reading the delivered
+    events in order with a counter that starts at 1, every anchored node carries exactly the
+    counter's value (so ids are positive, handed out as 1, 2, 3, … and never shared) and every
+    alias carries a positive id below the counter (an id handed out earlier in the stream). -/
+def C02_anchors_full : Prop :=
+  ∀ (toks : List Token) (scanErr : Option ScanError) (eof : Marker) (keep : Bool) (fuel : Nat),
+    ∃ n, aRun 1 ((iterate fuel (Api.init (PState.init toks scanErr eof keep)) []).1.map (·.1)) = some n
+
+theorem C02_anchors : C02_anchors_full := by
+  intro toks scanErr eof keep fuel
+  exact iterate_anchors fuel (Api.init (PState.init toks scanErr eof keep)) rfl
+    ⟨by simp [Api.init, PState.init], by simp [Api.init, PState.init]⟩
+
 /-- one step, any state reachable or not: a parser state related to a grammar configuration steps
     to a related one, emitting an event the grammar accepts; `pop_state().unwrap()` is safe -/
 theorem C02_one_step {p : PState} {g : G} (h : R p g) (hne : p.state ≠ .end) :
